@@ -24,8 +24,8 @@ ASSUMPTIONS = [
     'a lookup in a store that holds no trajectory yet is executed but not judged',
 ]
 BOUNDS = {
-    'quick': ('c08q', 3, 7, 'c08u', 6, 'c08q', 4),
-    'thorough': ('c08', 4, 10, 'c08u', 8, 'c08q', 5),
+    'quick': ('c08', 4, 9, 'c08u', 6, 'c08q', 4),
+    'thorough': ('c08', 6, 13, 'c08u', 9, 'c08q', 5),
 }
 
 
